@@ -17,6 +17,8 @@ MC_AllNames == {<<"s">>, <<"t">>, <<"x", 0>>, <<"x", 1>>, <<"y", 0>>, <<"y", 1>>
 MC_En == {"SBin", "SBinLit", "SNeg", "Fn", "VFn", "VBin", "VBinLit", "VNeg", "Sum", "Dot", "LinComb", "Norm", "QuadForm", "Index"}
 MC_ScalarLits == {LitS("int", Q(2, 1)), LitS("float", Q(1, 2)), LitS("int", Q(-1, 1)), LitS("int", Q(0, 1)),
                   LitS("float", Q(5, 2)), LitS("int", Q(3, 1)), LitS("int", Q(1, 1))}
+MC_ScalarLitsSmall == {LitS("int", Q(2, 1)), LitS("float", Q(1, 2)), LitS("int", Q(0, 1))}      \* thorough tier: one call deeper
+MC_SOpsSmall == {"+", "*", "**"}
 MC_ArrayLits == {Lit("arr", <<Q(2,1), Q(-1,1)>>, <<2>>), Lit("arr", <<Q(2,1), Q(-1,1), Q(1,1), Q(3,1)>>, <<2, 2>>)}
 MC_Slices == {}
 MC_Indices == {0}
